@@ -22,6 +22,7 @@ type fsmInput struct {
 	v    ssa.Value
 	dom  []int64
 	name string
+	cell bool // v is the address of a boolean variable kept in memory (its address is handed to a helper)
 }
 
 type fsmPoint struct {
@@ -31,8 +32,11 @@ type fsmPoint struct {
 }
 
 type fsm struct {
-	symNext       bool // also report the next value of loop-carried variables that are not finite-domain inputs
-	whole         bool // evaluate from the loop header to the function's exits (not only one trip through the body)
+	noInline      map[*ssa.Function]bool // helpers that stay calls (inlined at several sites with an opaque condition)
+	inlinedHelper map[*ssa.Function]bool
+	helperSy      map[*ssa.Call]*symb // per inlined call: the helper's expressions in the caller's vocabulary
+	symNext       bool                // also report the next value of loop-carried variables that are not finite-domain inputs
+	whole         bool                // evaluate from the loop header to the function's exits (not only one trip through the body)
 	rets          []*ssa.Return
 	c             *Ctx
 	f             *ssa.Function
@@ -142,18 +146,23 @@ func (m *fsm) build(byteVal ssa.Value, extra ...fsmInput) *fsm {
 		dom := map[int64]bool{}
 		if bt, ok := phi.Type().Underlying().(*types.Basic); ok && bt.Kind() == types.Bool {
 			if boolDomain(phi, dom, map[ssa.Value]bool{}) {
-				m.inputs = append(m.inputs, fsmInput{phi, sortedKeys(dom), phi.Comment})
+				m.inputs = append(m.inputs, fsmInput{v: phi, dom: sortedKeys(dom), name: phi.Comment})
 			}
 			continue
 		}
 		if constDomain(phi, dom, map[ssa.Value]bool{}) && len(dom) > 0 && len(dom) <= 16 {
-			m.inputs = append(m.inputs, fsmInput{phi, sortedKeys(dom), phi.Comment})
+			m.inputs = append(m.inputs, fsmInput{v: phi, dom: sortedKeys(dom), name: phi.Comment})
 		}
+	}
+	// a boolean state variable whose address is taken (handed to a helper of the package): kept in a memory cell
+	// rather than in a phi; it is an input like the others, its next value is the cell's content at the back edge
+	if cellV := boolStateCell(f, region); cellV != nil {
+		m.inputs = append(m.inputs, fsmInput{v: cellV, dom: []int64{0, 1}, name: cellV.Comment, cell: true})
 	}
 	m.inputs = append(m.inputs, extra...)
 	if byteVal != nil {
 		m.byteIn = len(m.inputs)
-		m.inputs = append(m.inputs, fsmInput{byteVal, byteDomain(), "b"})
+		m.inputs = append(m.inputs, fsmInput{v: byteVal, dom: byteDomain(), name: "b"})
 	}
 	// entry of the body: evaluate from the header itself so that the header's own test is part of the outcome
 	for attempt := 0; attempt < 14; attempt++ {
@@ -171,8 +180,29 @@ func (m *fsm) build(byteVal ssa.Value, extra ...fsmInput) *fsm {
 					nOpq++
 				}
 			}
-			m.inputs = append(m.inputs, fsmInput{opq, []int64{0, 1}, fmt.Sprintf("cond%d", nOpq+1)})
-			m.condDesc = append(m.condDesc, fmt.Sprintf("cond%d = %s", nOpq+1, newSymb(f).expr(opq).String()))
+			// a condition inside an inlined helper: rendered with the helper's parameters replaced by the arguments of
+			// its call; a helper inlined at several sites cannot share one input: it stays a call
+			desc := newSymb(f).expr(opq).String()
+			if oi, ok := opq.(ssa.Instruction); ok && oi.Parent() != f {
+				var hs []*symb
+				for cl, sy := range m.helperSy {
+					if cl.Call.StaticCallee() == oi.Parent() {
+						hs = append(hs, sy)
+					}
+				}
+				if len(hs) != 1 {
+					if m.noInline == nil {
+						m.noInline = map[*ssa.Function]bool{}
+					}
+					m.noInline[oi.Parent()] = true
+					m.pendingOpaque = nil
+					m.err = ""
+					continue
+				}
+				desc = hs[0].expr(opq).String()
+			}
+			m.inputs = append(m.inputs, fsmInput{v: opq, dom: []int64{0, 1}, name: fmt.Sprintf("cond%d", nOpq+1)})
+			m.condDesc = append(m.condDesc, fmt.Sprintf("cond%d = %s", nOpq+1, desc))
 			m.pendingOpaque = nil
 			m.err = ""
 			continue
@@ -228,6 +258,63 @@ func boolDomain(v ssa.Value, dom map[int64]bool, seen map[ssa.Value]bool) bool {
 
 type fsmRun struct{}
 
+// renderNext renders a loop-carried value; a result of an inlined helper is rendered as what the helper returned
+// on the path point k took.
+func (m *fsm) renderNext(sy *symb, a *vsa, v ssa.Value, k int) string {
+	idx := 0
+	cl, _ := v.(*ssa.Call)
+	if ex, ok := v.(*ssa.Extract); ok {
+		cl, _ = ex.Tuple.(*ssa.Call)
+		idx = ex.Index
+	}
+	if cl != nil && a.callRets[cl] != nil && m.helperSy[cl] != nil {
+		if rt := a.callRets[cl][k]; rt != nil && idx < len(rt.Results) {
+			return m.helperSy[cl].expr(rt.Results[idx]).String()
+		}
+	}
+	return sy.expr(v).String()
+}
+
+// storeOfHelperResult: `x = helper(x, …)` — per point, by the return the helper took: handing back the parameter
+// that was loaded from the same place is no change; handing back append(that parameter, …) is part of the append
+// (already observed); anything else is a store of what the helper computed.
+func (m *fsm) storeOfHelperResult(sy *symb, st *ssa.Store, call *ssa.Call, idx int, rets []*ssa.Return, set []bool, byteV ssa.Value) {
+	g := call.Call.StaticCallee()
+	addr := sy.expr(st.Addr).String()
+	for k := range set {
+		if !set[k] || rets[k] == nil || idx >= len(rets[k].Results) {
+			continue
+		}
+		rv := rets[k].Results[idx]
+		// the value of a phi at the return block cannot be told per point here: fall through to a plain store
+		argOf := func(v ssa.Value) ssa.Value {
+			for i, p := range g.Params {
+				if v == ssa.Value(p) && i < len(call.Call.Args) {
+					return call.Call.Args[i]
+				}
+			}
+			return nil
+		}
+		loadedFromAddr := func(v ssa.Value) bool {
+			a := argOf(v)
+			if a == nil {
+				return false
+			}
+			ld, ok := a.(*ssa.UnOp)
+			return ok && ld.Op == token.MUL && sy.expr(ld.X).String() == addr
+		}
+		if loadedFromAddr(rv) {
+			continue
+		}
+		if cl, ok := rv.(*ssa.Call); ok {
+			if b, ok := cl.Call.Value.(*ssa.Builtin); ok && b.Name() == "append" && loadedFromAddr(cl.Call.Args[0]) {
+				continue
+			}
+		}
+		m.points[k].events = append(m.points[k].events, "store "+addr+" = result of "+fname(g))
+	}
+}
+
 func (m *fsm) run(region map[*ssa.BasicBlock]bool) bool {
 	// enumerate points
 	n := 1
@@ -268,7 +355,43 @@ func (m *fsm) run(region map[*ssa.BasicBlock]bool) bool {
 	a := &vsa{c: m.c, f: m.f, dom: dom, entry: m.header, region: region, preset: presets,
 		sliceTab: map[*ssa.Global][]int64{}, mapKeys: map[*ssa.Global]map[int64]bool{}, mapVals: map[*ssa.Global]map[int64]int64{}}
 	a.reenter = m.header
+	cellIdx := -1
+	for i, in := range m.inputs {
+		if in.cell {
+			cellIdx = i
+		}
+	}
+	if cellIdx >= 0 {
+		cv := m.inputs[cellIdx].v
+		a.isCell = func(addr ssa.Value) bool { return addr == cv }
+		a.startCell = make([]aval, n)
+		for k := 0; k < n; k++ {
+			a.startCell[k] = aval{true, m.points[k].vals[cellIdx]}
+		}
+		delete(a.preset, cv)
+	}
+	a.inlineHelpers = true
+	a.noInline = m.noInline
+	m.helperSy = nil
 	a.onInstr = func(in ssa.Instruction, set []bool) {
+		// a result of an inlined helper stored back: what is stored depends on the return each point took
+		if st, ok := in.(*ssa.Store); ok {
+			if ex, ok := st.Val.(*ssa.Extract); ok {
+				if cl, ok := ex.Tuple.(*ssa.Call); ok && a.callRets[cl] != nil {
+					m.storeOfHelperResult(sy, st, cl, ex.Index, a.callRets[cl], set, byteV)
+					return
+				}
+			}
+			if cl, ok := st.Val.(*ssa.Call); ok && a.callRets[cl] != nil {
+				m.storeOfHelperResult(sy, st, cl, 0, a.callRets[cl], set, byteV)
+				return
+			}
+		}
+		if cl, ok := in.(*ssa.Call); ok {
+			if g := cl.Call.StaticCallee(); g != nil && m.inlinedHelper[g] {
+				return // its effects were observed instruction by instruction
+			}
+		}
 		ev := describeEffect(sy, in, byteV)
 		if ev == "" {
 			return
@@ -278,6 +401,61 @@ func (m *fsm) run(region map[*ssa.BasicBlock]bool) bool {
 				m.points[k].events = append(m.points[k].events, ev)
 			}
 		}
+	}
+	if m.inlinedHelper == nil {
+		m.inlinedHelper = map[*ssa.Function]bool{}
+	}
+	a.subObserver = func(call *ssa.Call, g *ssa.Function) (func(in ssa.Instruction, set []bool), func()) {
+		subSy := newSymb(g)
+		if m.helperSy == nil {
+			m.helperSy = map[*ssa.Call]*symb{}
+		}
+		m.helperSy[call] = subSy
+		var subByte ssa.Value
+		for i, p := range g.Params {
+			if i < len(call.Call.Args) {
+				subSy.subst[p] = sy.expr(call.Call.Args[i])
+				if call.Call.Args[i] == byteV && byteV != nil {
+					subByte = p
+				}
+			}
+		}
+		type pend struct {
+			k  int
+			ev string
+		}
+		var pending []pend
+		// stores through a parameter that is the address of one of the caller's local variables are stores to that
+		// local: state, not an effect
+		localPtr := map[ssa.Value]bool{}
+		for i, p := range g.Params {
+			if i < len(call.Call.Args) {
+				if _, ok := call.Call.Args[i].(*ssa.Alloc); ok {
+					localPtr[p] = true
+				}
+			}
+		}
+		obs := func(in ssa.Instruction, set []bool) {
+			if st, ok := in.(*ssa.Store); ok && localPtr[st.Addr] {
+				return
+			}
+			ev := describeEffect(subSy, in, subByte)
+			if ev == "" {
+				return
+			}
+			for k := 0; k < n; k++ {
+				if set[k] {
+					pending = append(pending, pend{k, ev})
+				}
+			}
+		}
+		commit := func() {
+			m.inlinedHelper[g] = true
+			for _, p := range pending {
+				m.points[p.k].events = append(m.points[p.k].events, p.ev)
+			}
+		}
+		return obs, commit
 	}
 	a.run()
 	if a.err != "" {
@@ -307,6 +485,14 @@ func (m *fsm) run(region map[*ssa.BasicBlock]bool) bool {
 				// next values of the state inputs: the header phis' edges from the block we came from
 				var ns []string
 				for _, in := range m.inputs {
+					if in.cell {
+						if e.cell.ok {
+							ns = append(ns, fmt.Sprintf("%s=%d", in.name, e.cell.v))
+						} else {
+							ns = append(ns, in.name+"=?")
+						}
+						continue
+					}
 					phi, ok := in.v.(*ssa.Phi)
 					if !ok || phi.Block() != m.header {
 						continue
@@ -339,7 +525,7 @@ func (m *fsm) run(region map[*ssa.BasicBlock]bool) bool {
 								if phi.Edges[i] == ssa.Value(phi) {
 									ns = append(ns, phi.Comment+"=same")
 								} else {
-									ns = append(ns, phi.Comment+"="+sy.expr(phi.Edges[i]).String())
+									ns = append(ns, phi.Comment+"="+m.renderNext(sy, a, phi.Edges[i], k))
 								}
 							}
 						}
@@ -1220,7 +1406,14 @@ func rulesNewickParser(c *Ctx, r *Report) {
 		return
 	}
 	pos := c.pos(f.Pos())
-	m := &fsm{c: c, f: f, header: header, byteIn: -1, whole: true, symNext: true}
+	m := &fsm{c: c, f: f, header: header, byteIn: -1, whole: true, symNext: true, noInline: map[*ssa.Function]bool{}}
+	// a helper that parses the number into a pointer stays a call: whether it succeeded is this automaton's
+	// "number parses" input
+	for _, g := range c.calleesIn(f) {
+		if g.Blocks != nil && c.inModule(g) && len(g.Params) == 2 && numberIntoPointer(g) {
+			m.noInline[g] = true
+		}
+	}
 	m.build(nil)
 	dumpFSM(m, where)
 	if m.err != "" {
@@ -1616,4 +1809,52 @@ func numberIntoPointer(g *ssa.Function) bool {
 		}
 	})
 	return nStores == 1 && okStore
+}
+
+// boolStateCell: a local boolean variable of f that lives in memory because its address is handed to helpers of the
+// package, and that is read or written inside the region — at most one is supported.
+func boolStateCell(f *ssa.Function, region map[*ssa.BasicBlock]bool) *ssa.Alloc {
+	var found *ssa.Alloc
+	for _, b := range f.Blocks {
+		for _, in := range b.Instrs {
+			al, ok := in.(*ssa.Alloc)
+			if !ok {
+				continue
+			}
+			pt, ok := al.Type().Underlying().(*types.Pointer)
+			if !ok {
+				continue
+			}
+			if bt, ok := pt.Elem().Underlying().(*types.Basic); !ok || bt.Kind() != types.Bool {
+				continue
+			}
+			passed, inRegion, okUse := false, false, true
+			for _, ref := range *al.Referrers() {
+				switch x := ref.(type) {
+				case *ssa.UnOp, *ssa.Store, *ssa.DebugRef:
+					if region[ref.Block()] {
+						inRegion = true
+					}
+				case *ssa.Call:
+					g := x.Call.StaticCallee()
+					if g == nil || g.Blocks == nil || g.Pkg != f.Pkg {
+						okUse = false
+					}
+					passed = true
+					if region[ref.Block()] {
+						inRegion = true
+					}
+				default:
+					okUse = false
+				}
+			}
+			if passed && inRegion && okUse {
+				if found != nil {
+					return nil
+				}
+				found = al
+			}
+		}
+	}
+	return found
 }
